@@ -43,18 +43,20 @@ func (cache *HevcCache) CachePack(pack Pack) bool {
 	cache.l.Lock()
 	defer cache.l.Unlock()
 
+	// 聚合包可能同时携带 VPS、SPS、PPS 甚至关键帧，分别记录
 	if vps { // 视频参数
 		cache.vps = rtppack
-		return false
 	}
 
 	if sps { // 序列头参数
 		cache.sps = rtppack
-		return false
 	}
 
 	if pps { // 图像参数
 		cache.pps = rtppack
+	}
+
+	if (vps || sps || pps) && !islice { // 仅含参数集的包不进入 GopCache
 		return false
 	}
 
@@ -92,12 +94,12 @@ func (cache *HevcCache) PushTo(q *queue.SyncQueue) int {
 		bytes += cache.vps.Size()
 	}
 
-	if cache.sps != nil {
+	if cache.sps != nil && cache.sps != cache.vps { // 同一个聚合包只发送一次
 		q.Queue().Push(cache.sps)
 		bytes += cache.sps.Size()
 	}
 
-	if cache.pps != nil {
+	if cache.pps != nil && cache.pps != cache.vps && cache.pps != cache.sps {
 		q.Queue().Push(cache.pps)
 		bytes += cache.pps.Size()
 	}
@@ -105,8 +107,11 @@ func (cache *HevcCache) PushTo(q *queue.SyncQueue) int {
 	// 如果必要，写 GopCache
 	if cache.cacheGop {
 		packs := cache.gop.Elems()
-		q.Queue().PushN(packs) // 启动阶段调用，无需加锁
 		for _, p := range packs {
+			if rp := p.(*rtp.Packet); rp == cache.vps || rp == cache.sps || rp == cache.pps {
+				continue // 已作为参数集包发送
+			}
+			q.Queue().Push(p) // 启动阶段调用，无需加锁
 			bytes += p.(Pack).Size()
 		}
 	}
